@@ -244,7 +244,7 @@ def run(tier: str, seed: int) -> int:
         fl = floor_of(c)
         e = c["entry"]
         if tier == "quick":
-            if e == "kk" and rng.random() > 0.3:
+            if e == "kk" and rng.random() > 0.12:
                 continue
             if e == "fit" and (c["method"] == "auto" or c["weight"] == "auto") and rng.random() > 0.3:
                 continue
